@@ -16,6 +16,7 @@ func init() {
 		ID: "C20",
 		Rules: []Rule{
 			{"EVENT-ONSUCCESS", ruleEventOnSuccess},
+			{"COMMIT-CALLBACKS", ruleCommitCallbacks},
 			{"EVENT-PAYLOAD", ruleEventPayload},
 			{"CONFINEMENT", ruleBusConfinement},
 			{"BUS-BLOCKING", ruleBusBlocking},
